@@ -5,7 +5,8 @@ import FsicModel.EvalIndex
 
   strict check → position map `{new position ↦ old position}` for every new label that is `in` the old span →
   `copy()` with the span replaced → for every variable, in order: fill value = `fill_values.get(name, fill_value)`,
-  coerced by dtype (`None` ↦ False / 0 / '' / NaN; otherwise `bool()` / `int()` / `str()` / NumPy's cast to float),
+  coerced by dtype (`None` ↦ False / 0 / '' / NaN; otherwise `bool()` / `int()` / `str()` / NumPy's cast; the
+  `if/elif` chain is `branchOf`, tied to the code by the reflected probe table `Generated.reindexProbes`),
   `np.full(len(span), value, dtype=old dtype)`, then one assignment `new[name][i] = old[name][k]` per map entry.
   `BaseModel.reindex` first puts `status='-'` and `iterations=-1` into the keyword fills unless they are given.
 
@@ -15,17 +16,15 @@ reindex copies and fills, it never computes.  `int(float)` / `str(float)` of a f
 -/
 namespace Fsic.Reindex
 
-inductive DType where
-  | float | int | bool
-  | str (width : Nat)          -- NumPy '<U{width}'
-  deriving DecidableEq, Repr
-
 /-- One array element. -/
 inductive Val where
   | f (bits : Nat)
   | i (v : Int)
   | b (v : Bool)
   | s (v : List Char)
+  /-- an element of a dtype the code does not treat specially (float16/32, complex, bytes, object, datetime64):
+      carried as canonical text. -/
+  | o (t : List Char)
   deriving DecidableEq, Repr
 
 /-- A fill value as the caller passes it. -/
@@ -37,6 +36,43 @@ inductive PyVal where
   | f (bits : Nat) (asInt : Option Int) (asStr : List Char)
   | s (v : List Char)
   deriving DecidableEq, Repr
+
+/-- The dtype of a series, as far as `reindex` distinguishes dtypes.  `int lo hi`: any integer-like dtype
+    (`np.issubdtype(dtype, np.integer)`: int8…int64, uint8…uint64, timedelta64) with its value range;
+    `other casts`: every dtype that falls through the `if/elif` chain — the fill value goes to `np.full` as it is,
+    and NumPy's cast of each candidate fill value is an input (`casts`; `none` = NumPy raises). -/
+inductive DType where
+  | float                      -- float64 (falls through as well, but its cast is modelled)
+  | int (lo hi : Int)
+  | bool
+  | str (width : Nat)          -- NumPy '<U{width}'
+  | other (casts : List (PyVal × Option Val))
+  deriving DecidableEq, Repr
+
+/-- Which arm of the `if / elif` chain of `reindex` a dtype takes, by NumPy kind character, in the code's order:
+    `issubdtype(dtype, bool)`, `issubdtype(dtype, np.integer)`, `issubdtype(dtype, str)`, else nothing. -/
+inductive Branch where
+  | bool | int | str | passthrough
+  deriving DecidableEq, Repr
+
+def branchOf (kind : Char) : Branch :=
+  if kind == 'b' then .bool
+  else if kind == 'i' || kind == 'u' || kind == 'm' then .int
+  else if kind == 'U' then .str
+  else .passthrough
+
+/-- Value range of an integer-like dtype of `size` bytes. -/
+def intRange (kind : Char) (size : Nat) : Int × Int :=
+  if kind == 'u' then (0, (2 : Int) ^ (8 * size) - 1)
+  else (-((2 : Int) ^ (8 * size - 1)), (2 : Int) ^ (8 * size - 1) - 1)
+
+/-- The model dtype of a NumPy dtype given by kind character and item size. -/
+def mkDType (kind : Char) (size : Nat) (casts : List (PyVal × Option Val)) : DType :=
+  match branchOf kind with
+  | .bool => .bool
+  | .int => .int (intRange kind size).1 (intRange kind size).2
+  | .str => .str (size / 4)
+  | .passthrough => if kind == 'f' && size == 8 then .float else .other casts
 
 inductive Err where
   | keyError          -- strict: unknown variable in the fill keywords; or the NumPy fallback locator refusing duplicates
@@ -53,20 +89,28 @@ def oneBits : Nat := 0x3FF0000000000000
 /-- The dtype defaults of the property: NaN, 0, False, ''. -/
 def defaultFill : DType → Val
   | .float => .f nanBits
-  | .int => .i 0
+  | .int _ _ => .i 0
   | .bool => .b false
   | .str _ => .s []
+  | .other _ => .o []           -- not used: `coerce` asks the cast table
 
 def boolText (b : Bool) : List Char := if b then ['T', 'r', 'u', 'e'] else ['F', 'a', 'l', 's', 'e']
 
-def inInt64 (v : Int) : Bool := decide (-9223372036854775808 ≤ v) && decide (v ≤ 9223372036854775807)
+/-- `np.full(n, <Python int>, dtype=<integer dtype>)`: OverflowError outside the dtype's range. -/
+def intVal (lo hi v : Int) : Except Err Val :=
+  if decide (lo ≤ v) && decide (v ≤ hi) then .ok (.i v) else .error .coercion
 
-def intVal (v : Int) : Except Err Val := if inInt64 v then .ok (.i v) else .error .coercion
+def castOther (casts : List (PyVal × Option Val)) (v : PyVal) : Except Err Val :=
+  match casts.lookup v with
+  | some (some x) => .ok x
+  | some .none => .error .coercion
+  | .none => .error .unmodelled
 
 def floatOfInt (v : Int) : Nat := (Float.ofInt v).toBits.toNat
 
 /-- The special handling in `reindex` plus `np.full(.., value, dtype=dtype)`. -/
 def coerce : DType → PyVal → Except Err Val
+  | .other casts, v => castOther casts v
   | d, .none => .ok (defaultFill d)
   -- bool(value)
   | .bool, .b v => .ok (.b v)
@@ -74,12 +118,12 @@ def coerce : DType → PyVal → Except Err Val
   | .bool, .f bits _ _ => .ok (.b (bits != zeroBits && bits != negZeroBits))
   | .bool, .s v => .ok (.b (!v.isEmpty))
   -- int(value)
-  | .int, .b v => .ok (.i (if v then 1 else 0))
-  | .int, .i v => intVal v
-  | .int, .f _ (some v) _ => intVal v
-  | .int, .f _ .none _ => .error .coercion
-  | .int, .s v => match Fsic.EvalIdx.parsePyInt v with
-    | some n => intVal n
+  | .int lo hi, .b v => intVal lo hi (if v then 1 else 0)
+  | .int lo hi, .i v => intVal lo hi v
+  | .int lo hi, .f _ (some v) _ => intVal lo hi v
+  | .int _ _, .f _ .none _ => .error .coercion
+  | .int lo hi, .s v => match Fsic.EvalIdx.parsePyInt v with
+    | some n => intVal lo hi n
     | .none => .error .coercion
   -- str(value), truncated to the width of the dtype by np.full
   | .str w, .b v => .ok (.s ((boolText v).take w))
@@ -91,6 +135,24 @@ def coerce : DType → PyVal → Except Err Val
   | .float, .i v => .ok (.f (floatOfInt v))
   | .float, .f bits _ _ => .ok (.f bits)
   | .float, .s _ => .error .unmodelled
+
+/-- Encoding of an outcome of `coerce` with basic types only — the format of the reflected probe table
+    `Generated.reindexProbes` (tag, int, bool, chars). -/
+def encode : Except Err Val → String × Int × Bool × List Char
+  | .ok (.b v) => ("b", 0, v, [])
+  | .ok (.i v) => ("i", v, false, [])
+  | .ok (.f bits) => if bits = nanBits then ("nan", 0, false, []) else ("f", bits, false, [])
+  | .ok (.s v) => ("s", 0, false, v)
+  | .ok (.o t) => ("o", 0, false, t)
+  | .error _ => ("err", 0, false, [])
+
+/-- The property's default table by NumPy kind: False, 0, NaN (float and complex), ''. -/
+def propertyDefault (kind : Char) : Option (String × Int × Bool × List Char) :=
+  if kind == 'b' then some ("b", 0, false, [])
+  else if kind == 'i' || kind == 'u' then some ("i", 0, false, [])
+  else if kind == 'f' || kind == 'c' then some ("nan", 0, false, [])
+  else if kind == 'U' then some ("s", 0, false, [])
+  else none          -- bytes, object, datetime64, timedelta64: not in the property's table
 
 structure Series where
   dtype : DType
